@@ -5,7 +5,7 @@ from fractions import Fraction as Fr
 
 from ..nf import Rat, C
 from ..source import Unsupported, AnchorError, norm
-from ..xlate import Interp, Obj, ListV, DictV, Raised, FuncRef, BoundNative
+from ..xlate import Interp, Obj, ListV, DictV, Raised, FuncRef, BoundNative, Frame, _RaisedExc
 from .common import same, show, opaque_obj
 
 EQ = 'pmutt.equilibrium.Equilibrium'        # the public path; the defining module is found through the re-export
@@ -14,217 +14,454 @@ EQ = 'pmutt.equilibrium.Equilibrium'        # the public path; the defining modu
 MODEL_FORMS = ('model in the order of the network', 'model in another order with a species more, as a dict',
                'model in another order with a species more, as a list')
 
+# the exit modes of SLSQP as scipy documents them (scipy/optimize/_slsqp_py.py); 0 is the only successful one
+SLSQP_MESSAGES = {
+    0: 'Optimization terminated successfully',
+    1: 'Function evaluation required (f & c)',
+    2: 'More equality constraints than independent variables',
+    3: 'More than 3*n iterations in LSQ subproblem',
+    4: 'Inequality constraints incompatible',
+    5: 'Singular matrix E in LSQ subproblem',
+    6: 'Singular matrix C in LSQ subproblem',
+    7: 'Rank-deficient equality constraint subproblem HFTI',
+    8: 'Positive directional derivative for linesearch',
+    9: 'Iteration limit reached',
+}
+OK_ = (True, 0, 7)
+# (status, number of iterations; None: as many as the iteration limit handed to the solver). The first one is the
+# failure the rule has always used.
+FAILURE_MODES = [(9, 7)] + [(st, nit) for st in (1, 2, 3, 4, 5, 6, 7, 8, 9) for nit in (7, None) if (st, nit) != (9, 7)]
 
-def build(I, repo, net, form):
+
+class _Members(dict):
+    """the methods of a stub object that stands for a library object: asking for a member the stub does not model is
+    outside the interpreted fragment, not an AttributeError (the real object has, or may have, the member)"""
+
+    def __init__(self, what):
+        dict.__init__(self)
+        self.what = what
+
+    def __contains__(self, k):
+        if dict.__contains__(self, k):
+            return True
+        raise Unsupported('member %r of %s is not modelled' % (k, self.what))
+
+
+class OptimizeResultV(DictV, Obj):
+    """scipy.optimize.OptimizeResult: a dict whose items are also its attributes (sol.x is sol['x']); one store for
+    both views. Anything else asked of it is refused, never answered with a guessed exception."""
+
+    def __init__(self, name, items):
+        DictV.__init__(self, items)
+        Obj.__init__(self, name, closed=True)
+        self.attrs = self.d
+        self.opaque_methods = _Members('scipy.optimize.OptimizeResult')
+
+
+def solver(cap, state, ns):
+    """scipy.optimize.minimize as an uninterpreted solver: records what it is given (cap) and returns a fresh result
+    with the outcome the rule set in state['outcome'] = (success, status, iterations)"""
+    def mini(I_, fr, args, kwargs, nd):
+        rec = {'fun': args[0] if args else kwargs.get('fun'),
+               'x0': args[1] if len(args) > 1 else kwargs.get('x0')}
+        if len(args) > 2:
+            rec['args'] = args[2]
+        rec.update(kwargs)
+        opts = rec.get('options')
+        maxiter = opts.d.get('maxiter') if isinstance(opts, DictV) else None
+        if not (isinstance(maxiter, Rat) and maxiter.is_const()):
+            maxiter = C(100)                        # the default of SLSQP
+        success, status, nit = state['outcome']
+        k = state['n']
+        state['n'] += 1
+        sfx = '' if k == 0 else '_call%d' % (k + 1)
+
+        def vec(stem):
+            v = ListV([I_.D.sym('%s%d%s' % (stem, i, sfx)) for i in range(ns)])
+            v.is_array = True
+            v.dtype = 'float'                       # the solver works on float64 vectors
+            return v
+        # the members an SLSQP result has
+        sol = OptimizeResultV('sol', {'x': vec('xsol'), 'success': success, 'status': C(status),
+                                      'message': SLSQP_MESSAGES[status], 'fun': I_.D.sym('fsol' + sfx),
+                                      'jac': vec('gsol'), 'nit': maxiter if nit is None else C(nit),
+                                      'nfev': I_.D.sym('nfev' + sfx), 'njev': I_.D.sym('njev' + sfx)})
+        rec['sol'] = sol
+        cap.clear()
+        cap.update(rec)
+        return sol
+    return mini
+
+
+def build(I, repo, net, form, feed='feed_', sp=None, model=None):
     """the problem built through the public constructor: concrete compositions, symbolic feed amounts; the model may
-    hold the species in another order than the network and species the network does not name"""
+    hold the species in another order than the network and species the network does not name. A second problem over
+    the same species (sp, model given) has feed amounts of its own."""
     D = I.D
     ci = repo.cls(EQ)
     names = [nm for nm, _ in net]
     comps = dict(net)
-    sp = {}
-    for nm, comp in list(net) + [('Xe2', {'Xe': 2})]:
-        o = opaque_obj(I, nm, {'get_GoRT': ('T',)})
-        o.attrs['elements'] = DictV({e: C(k) for e, k in comp.items()})
-        o.attrs['name'] = nm
-        sp[nm] = o
-    if form == MODEL_FORMS[0]:
-        order = names
-    else:
-        order = [names[-1], 'Xe2'] + names[:-1]
-    model = DictV()
-    for nm in order:
-        model.d[nm] = sp[nm]
+    if sp is None:
+        sp = {}
+        for nm, comp in list(net) + [('Xe2', {'Xe': 2})]:
+            o = opaque_obj(I, nm, {'get_GoRT': ('T',)})
+            o.attrs['elements'] = DictV({e: C(k) for e, k in comp.items()})
+            o.attrs['name'] = nm
+            sp[nm] = o
+    if model is None:
+        if form == MODEL_FORMS[0]:
+            order = names
+        else:
+            order = [names[-1], 'Xe2'] + names[:-1]
+        model = DictV()
+        for nm in order:
+            model.d[nm] = sp[nm]
+        if form == MODEL_FORMS[2]:
+            model = ListV(list(model.d.values()))
     network = DictV()
     for nm in names:
-        network.d[nm] = D.sym('feed_' + nm)
-    eq = Obj('eq', ci, closed=True)
-    r = I.call_method(eq, '__init__', [], {'model': ListV(list(model.d.values())) if form == MODEL_FORMS[2] else model,
-                                           'network': network})
-    return eq, r, names, sp, comps
+        network.d[nm] = D.sym(feed + nm)
+    eq = Obj('eq' if feed == 'feed_' else 'eq_' + feed, ci, closed=True)
+    r = I.call_method(eq, '__init__', [], {'model': model, 'network': network})
+    return eq, r, names, sp, comps, model
+
+
+def is_callable(v):
+    return isinstance(v, FuncRef) or hasattr(v, 'pmv_call')
+
+
+def call(fr_, f, args):
+    try:
+        return fr_.apply(f, list(args), {}, None)
+    except _RaisedExc as e:
+        return e.raised
+
+
+def where(f, owner, fn):
+    """(module, node, name) of a callable handed to the solver, for the report; the method under analysis when it is
+    a lambda or a library-made callable"""
+    if isinstance(f, FuncRef) and isinstance(f.fn, ast.FunctionDef):
+        return f.module, f.fn, f.fn.name
+    return owner.module, fn, fn.name
+
+
+def verify(run, I, eq, cap, res, ctx, feed, T, P, label, tag, full=True):
+    """one call of get_net_comp: what was handed to the solver is the problem of THIS object at THESE conditions, and
+    what is returned is what THIS run of the solver gave. Returns the constant ln(p/P) of the objective (None if the
+    objective is not of the expected form). full=False: only what can differ between two calls of unchanged callbacks -
+    the result, the value of the objective (Gibbs energies, pressure) and the value of the constraint (feed)."""
+    D = I.D
+    names, sp, comps, owner, fn = ctx
+    ns = len(names)
+    key = label + tag
+    if isinstance(res, Raised) or not isinstance(res, Obj):
+        run.fail('REF.result', 'Equilibrium.get_net_comp', 'result' + tag, '[%s] unexpected result %s'
+                 % (key, show(res)), owner.module, fn)
+        return None
+    sol = cap.get('sol')
+    if sol is None:
+        run.fail('EFFECT.shared-state' if tag else 'DATAFLOW.solver-args', 'Equilibrium.get_net_comp', key,
+                 '[%s] a composition is returned although the solver was not asked: %s' % (
+                     key, 'what is handed out was remembered from an earlier call or from another object, it is not '
+                     'the solution of this problem' if tag else 'nothing is minimised'), owner.module, fn)
+        return None
+    x = sol.d['x']
+    tot = x.items[0]
+    for xi in x.items[1:]:
+        tot = tot + xi
+    mf = res.attrs.get('mole_frac')
+    ok = isinstance(mf, ListV) and len(mf) == ns and all(same(a, b / tot) for a, b in zip(mf.items, x.items))
+    run.check(ok, 'REF.mole-fractions', 'Equilibrium.get_net_comp', key,
+              'mole fractions are %s, expected x/sum(x) of the solver amounts' % show(mf, 160), owner.module, fn)
+    mo = res.attrs.get('moles')
+    okm = isinstance(mo, ListV) and len(mo) == ns and all(same(a, b) for a, b in zip(mo.items, x.items))
+    run.check(okm and same(res.attrs.get('species'), ListV(list(names))),
+              'REF.result', 'Equilibrium.get_net_comp', key + ' amounts',
+              'returned amounts/species are not the solver\'s x (of this call) in the species order: %s'
+              % show(mo, 120), owner.module, fn)
+    # objective and its Jacobian
+    xs = ListV([D.sym('x%d' % i) for i in range(ns)])
+    xs.is_array = True
+    xs.dtype = 'float'              # the solver hands float64 vectors to the callbacks
+    fun, jac, args = cap.get('fun'), cap.get('jac'), cap.get('args')
+    # scipy: args defaults to (), anything that is not a tuple is one extra argument
+    extra = [] if args is None else list(args.items) if isinstance(args, ListV) else [args]
+    if not (is_callable(fun) and (jac is True or is_callable(jac))):
+        run.fail('DATAFLOW.solver-args', 'Equilibrium.get_net_comp', key, 'the objective and its analytic Jacobian '
+                 'are not handed to the solver (fun and jac callables, or jac=True and fun returning both)',
+                 owner.module, fn)
+        return None
+    fr_ = Frame(I, owner.module, {}, owner, eq)
+    out = call(fr_, fun, [xs] + extra)
+    if jac is True:
+        # scipy splits the pair (value, gradient)
+        val, grad = (out.items if isinstance(out, ListV) and len(out) == 2 and not getattr(out, 'is_array', False)
+                     else (out, None))
+        jfun = fun
+    else:
+        val, grad, jfun = out, (call(fr_, jac, [xs] + extra) if full else None), jac
+    g = [sp[nm].opaque_methods['get_GoRT'](I, sp[nm], [], {'T': T}) for nm in names]
+    nT = xs.items[0]
+    for xi in xs.items[1:]:
+        nT = nT + xi
+    # sum x_i (g_i + ln(x_i p / n)) with p = k P: the value minus the sum written with P itself is n ln k
+    want = C(0)
+    for xi, gi in zip(xs.items, g):
+        want = want + xi * (gi + D.ln(xi * P / nT))
+    lnk, form_ok, p_ok = None, False, False
+    if isinstance(val, Rat):
+        lnk = D.d(val - want, 'x0')
+        form_ok = (val - want).eq(nT * lnk)
+        rest = {a for a in lnk.atoms() if D.kind.get(a) != 'const'}
+        pa = P.atoms() | D.ln(P).atoms()
+        form_ok = form_ok and rest <= pa and not lnk.has_den()
+        p_ok = form_ok and not rest
+    m1, n1, nm1 = where(fun, owner, fn)
+    run.check(form_ok, 'REF.objective', 'Equilibrium.' + nm1, key,
+              'objective is %s, expected sum x_i (g_i + ln(x_i p / n)) with g_i = G_i/RT of species i at T'
+              % show(val, 200), m1, n1, sample='[%s] objective == sum x_i(g_i + ln(x_i p/n))' % key)
+    m2, n2, nm2 = where(jfun, owner, fn)
+    if form_ok:
+        # the gradient of that sum, in closed form: d/dx_i = g_i + ln(x_i p / n)  (the terms x_j d ln(x_j/n)/dx_i cancel)
+        dval = [gi + D.ln(xi * P / nT) + lnk for xi, gi in zip(xs.items, g)]
+    else:
+        dval = [D.d(val, 'x%d' % i) for i in range(ns)] if isinstance(val, Rat) else None
+    okj = dval is not None and isinstance(grad, ListV) and len(grad) == ns and \
+        all(isinstance(gr, Rat) and gr.eq(dv) for gr, dv in zip(grad.items, dval))
+    if full or jac is True:
+        run.check(okj, 'DERIV.objective-jac', 'Equilibrium.' + nm2, key,
+                  'the Jacobian handed to the solver is not the gradient of the objective: %s' % show(grad, 200),
+                  m2, n2, sample='[%s] jac_i == d objective / d x_i' % key)
+    # pressure in the objective: P (atm) times a constant
+    if form_ok:
+        run.check(p_ok, 'DATAFLOW.solver-args', 'Equilibrium.get_net_comp', key + ' pressure',
+                  'the pressure in the objective handed to the solver is not proportional to P: ln(p/P) = %s'
+                  % show(lnk, 120), owner.module, fn)
+    # constraints
+    con = cap.get('constraints')
+    cons = con.items if isinstance(con, ListV) else [con]
+    okc = False
+    for cd in cons:
+        if isinstance(cd, DictV) and cd.d.get('type') == 'eq' and is_callable(cd.d.get('fun')):
+            cv = call(fr_, cd.d['fun'], [xs])
+            els = []
+            for nm in names:
+                els.extend(e for e in comps[nm] if e not in els)
+            ne = len(els)
+            # one balance per element of the network, in whatever order the elements are kept
+            wantc = [sum((xs.items[i] * comps[nm].get(e, 0) - D.sym(feed + nm) * comps[nm].get(e, 0)
+                          for i, nm in enumerate(names)), C(0)) for e in els]
+            okc = isinstance(cv, ListV) and len(cv) == ne and all(isinstance(a, Rat) for a in cv.items)
+            left = list(wantc)
+            for a in (cv.items if okc else ()):
+                hit = [w for w in left if a.eq(w)]
+                if hit:
+                    left.remove(hit[0])
+            okc = okc and not left
+            m3, n3, nm3 = where(cd.d['fun'], owner, fn)
+            run.check(okc, 'REF.constraint', 'Equilibrium.' + nm3, key,
+                      'the equality constraint is %s, expected for every element of the network (atoms in x) - (atoms in '
+                      'the feed of this object)' % show(cv, 160), m3, n3)
+            if not full:
+                continue
+            cj = cd.d.get('jac')
+            jv = call(fr_, cj, [xs]) if is_callable(cj) else None
+            okjj = isinstance(cv, ListV) and isinstance(jv, ListV) and len(jv) == len(cv) and all(
+                isinstance(jv.items[j], ListV) and len(jv.items[j]) == ns and
+                all(same(jv.items[j].items[i], D.d(cv.items[j], 'x%d' % i)) for i in range(ns))
+                for j in range(len(cv)))
+            m4, n4, nm4 = where(cj, owner, fn)
+            run.check(okjj, 'DERIV.constraint-jac', 'Equilibrium.' + nm4, key,
+                      'the constraint Jacobian is not the derivative of the constraint (M transposed): %s'
+                      % show(jv, 160), m4, n4)
+    run.check(okc, 'DATAFLOW.solver-args', 'Equilibrium.get_net_comp', key + ' constraint',
+              'no element-conservation equality constraint is handed to the solver', owner.module, fn)
+    if not full:
+        return lnk if p_ok else None
+    # bounds
+    bnds = cap.get('bounds')
+    okb = isinstance(bnds, ListV) and len(bnds) == ns and all(
+        isinstance(b_, ListV) and isinstance(b_.items[0], Rat) and b_.items[0].is_const()
+        and b_.items[0].const_value() > 0 for b_ in bnds.items)
+    run.check(okb, 'REF.bounds', 'Equilibrium.get_net_comp', key + ' bounds',
+              'amounts are not bounded below by a positive constant for every species: %s' % show(bnds, 120),
+              owner.module, fn)
+    # x0 has one entry per species
+    x0 = cap.get('x0')
+    run.check(isinstance(x0, ListV) and len(x0) == ns, 'DATAFLOW.solver-args', 'Equilibrium.get_net_comp',
+              key + ' x0', 'initial guess does not have one entry per species', owner.module, fn)
+    return lnk if p_ok else None
+
+
+def success_instance(run, repo, net, form, label, owner, fn, mode, full, extras):
+    """one object asked four times (success, success at other conditions, failure, success again) and a second object
+    over the same species with a feed of its own asked at the conditions of the first call, in one interpreter: state
+    that outlives a call or an object (flags, caches, class attributes, module globals) is seen"""
+    I = Interp(repo)
+    D = I.D
+    eq, r0, names, sp, comps, model = build(I, repo, net, form)
+    if isinstance(r0, Raised):
+        run.fail('REF.constructor', 'Equilibrium.__init__', label, '[%s] building the problem raises %s'
+                 % (label, r0.exc), owner.module, fn)
+        return
+    ctx = (names, sp, comps, owner, fn)
+    cap, state = {}, {'outcome': OK_, 'n': 0}
+    I.native['scipy.optimize.minimize'] = solver(cap, state, len(net))
+
+    def ask(obj, k):
+        T, P = D.sym('T%s' % k), D.sym('P%s' % k)
+        cap.clear()
+        nw = len(I.warnings)
+        res = I.call_method(obj, 'get_net_comp', [], {'T': T, 'P': P})
+        return T, P, res, isinstance(res, Raised) or len(I.warnings) > nw
+    T, P, res, sig = ask(eq, '')
+    k1 = verify(run, I, eq, cap, res, ctx, 'feed_', T, P, label, '')
+    if not isinstance(res, Raised):
+        run.check(not sig, 'PATH.solver-status', 'Equilibrium.get_net_comp', 'success=True',
+                  'a warning is raised although the solver succeeded', owner.module, fn)
+    # the same object asked again at other conditions: the problem handed over is that of the new conditions
+    T2, P2, res2, sig2 = ask(eq, '2')
+    k2 = verify(run, I, eq, cap, res2, ctx, 'feed_', T2, P2, label, ', second call at other conditions', full)
+    if k1 is not None and k2 is not None:
+        run.check(same(k1, k2), 'DATAFLOW.solver-args', 'Equilibrium.get_net_comp',
+                  label + ', second call at other conditions pressure',
+                  'asked again at (T2, P2) the pressure in the objective is another multiple of P than in the first '
+                  'call', owner.module, fn)
+    if isinstance(res, Raised) or isinstance(res2, Raised) or not extras:
+        return
+    # ... then the solver fails once: signalled although earlier calls succeeded; and the next success is silent
+    st, nit = mode
+    state['outcome'] = (False, st, nit)
+    T3, P3, res3, sig3 = ask(eq, '3')
+    run.check(sig3, 'PATH.solver-status', 'Equilibrium.get_net_comp', 'success=False after successful calls',
+              'the solver reports failure (status %d, %s) on the third call of an object whose earlier calls '
+              'succeeded, and the composition is returned without a warning or an exception'
+              % (st, SLSQP_MESSAGES[st]), owner.module, fn)
+    state['outcome'] = OK_
+    T4, P4, res4, sig4 = ask(eq, '4')
+    run.check(not sig4, 'PATH.solver-status', 'Equilibrium.get_net_comp', 'success=True after a failed call',
+              'a warning or an exception although the solver succeeded (the call before it had failed)',
+              owner.module, fn)
+    if not sig4:
+        verify(run, I, eq, cap, res4, ctx, 'feed_', T4, P4, label, ', call after a failed call', full)
+    # a second object over the same species, another feed, the conditions of the first call of the first object
+    eq2, r2, _, _, _, _ = build(I, repo, net, form, feed='feed2_', sp=sp, model=model)
+    if isinstance(r2, Raised):
+        run.fail('REF.constructor', 'Equilibrium.__init__', label + ', second object',
+                 '[%s] building a second problem over the same species raises %s' % (label, r2.exc), owner.module, fn)
+        return
+    cap.clear()
+    nw = len(I.warnings)
+    res5 = I.call_method(eq2, 'get_net_comp', [], {'T': T, 'P': P})
+    verify(run, I, eq2, cap, res5, ctx, 'feed2_', T, P, label, ', second object at the same conditions', full)
+    if not isinstance(res5, Raised):
+        run.check(len(I.warnings) == nw, 'PATH.solver-status', 'Equilibrium.get_net_comp',
+                  'success=True, second object', 'a warning is raised although the solver succeeded (second object)',
+                  owner.module, fn)
+
+
+def failure_instance(run, repo, net, form, label, owner, fn, mode, seen, more=True):
+    """the solver fails (one documented exit mode of SLSQP) on every call: three calls on one object at different
+    conditions and one on a second object - each must be signalled"""
+    st, nit = mode
+    I = Interp(repo)
+    D = I.D
+    eq, r0, names, sp, comps, model = build(I, repo, net, form)
+    if isinstance(r0, Raised):
+        return                      # reported by the other instance
+    cap, state = {}, {'outcome': (False, st, nit), 'n': 0}
+    I.native['scipy.optimize.minimize'] = solver(cap, state, len(net))
+    mode_key = 'success=False, status=%d (%s)' % (st, SLSQP_MESSAGES[st])
+    what = '%s, %s' % (mode_key, 'few iterations' if nit is not None else 'as many iterations as the limit handed over')
+
+    def ask(obj, k, P=None):
+        cap.clear()
+        nw = len(I.warnings)
+        res = I.call_method(obj, 'get_net_comp', [], {'T': D.sym('T%s' % k), 'P': D.sym('P%s' % k)})
+        return isinstance(res, Raised) or len(I.warnings) > nw
+    first = ask(eq, '')
+    if not first:
+        # one finding for "the outcome is not consulted"; a finding of its own for an exit mode that alone is missed
+        generic = mode == FAILURE_MODES[0] or seen.get('generic')
+        seen['generic'] = seen.get('generic') or mode == FAILURE_MODES[0]
+        run.fail('PATH.solver-status', 'Equilibrium.get_net_comp', 'success=False' if generic else mode_key,
+                 'the solver reports failure (%s) but the composition is returned without a warning or an exception: '
+                 'the outcome of the optimisation is not consulted%s' % (what, '' if generic else ' for this exit mode'),
+                 owner.module, fn)
+        return
+    run.ok('PATH.solver-status', 'Equilibrium.get_net_comp',
+           '[%s] minimize(...) -> %s -> warning or exception' % (label, what))
+    if not more:
+        return
+    for k, nth in (('2', 'second'), ('3', 'third')):
+        run.check(ask(eq, k), 'PATH.solver-status', 'Equilibrium.get_net_comp',
+                  'success=False, %s call on the same object' % nth,
+                  'the solver fails again (%s) on the %s call of the same object (other conditions) and this time the '
+                  'composition is returned without a warning or an exception' % (what, nth), owner.module, fn,
+                  sample='[%s] %s failing call on one object -> warning or exception' % (label, nth))
+    eq2, r2, _, _, _, _ = build(I, repo, net, form, feed='feed2_', sp=sp, model=model)
+    if isinstance(r2, Raised):
+        return
+    run.check(ask(eq2, ''), 'PATH.solver-status', 'Equilibrium.get_net_comp', 'success=False, second object',
+              'the solver fails (%s) for a second object at conditions at which it had failed for another object, and '
+              'the composition is returned without a warning or an exception' % what, owner.module, fn,
+              sample='[%s] failing call on a second object -> warning or exception' % label)
 
 
 def check(run, repo):
     run.explanation = (
         'Narrow claim: the parts of C16 whose truth is in the shape of the code. Equilibrium.get_net_comp is '
         'interpreted with scipy.optimize.minimize as an uninterpreted solver that records what it is given and returns '
-        'a result object: (a) with success=False a warning or an exception must be produced before the result is '
-        'returned; (b) the objective handed over is sum x_i (g_i + ln(x_i p/n)) with g_i the species\' own G/RT at T in '
-        'the order of the amounts, and the Jacobian handed over is its exact gradient (symbolic differentiation, 2-4 '
-        'species); (c) the equality constraint is x.M - feed.M-totals over the element matrix, its Jacobian is M '
-        'transposed (the derivative of the constraint); (d) the lower bound of every amount is a positive constant; '
-        '(e) the returned mole fractions are x / sum(x) of the solver\'s amounts. The problems are built through the '
-        'public constructor for five networks over 1-4 elements with concrete compositions and symbolic feeds, with '
-        'the model in the order of the network and in another order with a species the network does not name (dict '
-        'and list). (f) Equilibrium.__init__ itself: element list, element matrix (atoms of element j in species i), '
-        'feed element totals and molar masses, in both species orders and with the permuted models. A warning counts '
-        'as a signal only if no filter installed by the package (module level, or an enclosing catch_warnings block) '
-        'discards it.')
-    run.assumptions = ['scipy.optimize.minimize is an uninterpreted solver; SLSQP behaviour is not modelled']
+        'a result object (a mapping whose items are also attributes, with the members of an SLSQP result): (a) when '
+        'the solver fails a warning or an exception must be produced before the result is returned - for every exit '
+        'mode SLSQP documents (status 1-9, few iterations and as many as the limit handed over, scipy\'s message), on '
+        'the first, second and third failing call of one object, on a second object, and on a failing call after '
+        'successful ones; a successful call is silent, also after a failed one; (b) the objective handed over is '
+        'sum x_i (g_i + ln(x_i p/n)) with g_i the species\' own G/RT at T in the order of the amounts and p a constant '
+        'multiple of P (the same in every call), and the Jacobian handed over (a callable, or the second member of the '
+        'pair the objective returns with jac=True) is its exact gradient (symbolic differentiation, 2-5 species); (c) '
+        'the equality constraint is x.M - feed.M-totals over the element matrix, its Jacobian is M transposed (the '
+        'derivative of the constraint); (d) the lower bound of every amount is a positive constant; (e) the returned '
+        'amounts are the solver\'s amounts of this call (by value) and the mole fractions are x / sum(x) of them. (b)-(e) '
+        'are decided for the first call, for a second call of the same object at other conditions, for a call after a '
+        'failed call, and for a second object over the same species with a feed of its own at the conditions of the '
+        'first (state shared between calls or objects: caches, flags, class attributes). The problems are built '
+        'through the public constructor for five networks over 1-4 elements with concrete compositions and symbolic '
+        'feeds, with the model in the order of the network and in another order with a species the network does not '
+        'name (dict and list). (f) Equilibrium.__init__ itself: element list, element matrix (atoms of element j in '
+        'species i), feed element totals and molar masses, in both species orders and with the permuted models. A '
+        'warning counts as a signal only if no filter installed by the package (module level, or an enclosing '
+        'catch_warnings block) discards it.')
+    run.assumptions = ['scipy.optimize.minimize is an uninterpreted solver; SLSQP behaviour is not modelled',
+                       'method, tolerance (ftol) and iteration limit asked of the solver are recorded, not judged']
     run.undecided = ['atom conservation, optimality and order independence of the returned composition as numeric '
-                     'facts (SLSQP)', 'reaction equilibrium within solver tolerance']
+                     'facts (SLSQP)', 'reaction equilibrium within solver tolerance',
+                     'whether the tolerance / iteration limit asked of SLSQP suffice: the property names no tolerance '
+                     '("within solver tolerance") and the package documents none, so no bound separates an adequate '
+                     'request from a loose one without running the solver',
+                     'SLSQP reporting success away from the optimum (linearly dependent element columns)']
     ci = repo.cls(EQ)
     for m_ in ('get_net_comp', '__init__'):
         run.fn(EQ + '.' + m_)
     owner, fn = repo.find_method(ci, 'get_net_comp')
-    for (nlabel, net), form in itertools.product(NETWORKS, MODEL_FORMS):
-        ns = len(net)
-        for success in (True, False):
-            I = Interp(repo)
-            D = I.D
-            eq, r0, names, sp, comps = build(I, repo, net, form)
-            label = '%s, %s' % (nlabel, form)
-            if isinstance(r0, Raised):
-                run.fail('REF.constructor', 'Equilibrium.__init__', label, '[%s] building the problem raises %s'
-                         % (label, r0.exc), owner.module, fn)
-                continue
-            cap = {}
-
-            def mini(I_, fr, args, kwargs, nd, success=success, ns=ns):
-                cap['fun'] = args[0] if args else kwargs.get('fun')
-                cap['x0'] = args[1] if len(args) > 1 else kwargs.get('x0')
-                cap.update(kwargs)
-                sol = Obj('sol', closed=True)
-                x = ListV([I_.D.sym('xsol%d' % i) for i in range(ns)])
-                x.is_array = True
-                x.dtype = 'float'           # the solver works on float64 vectors
-                sol.attrs.update({'x': x, 'success': success, 'status': C(0 if success else 9),
-                                  'message': 'solver message', 'fun': I_.D.sym('fsol'), 'nit': C(7)})
-                cap['sol'] = sol
-                return sol
-            I.native['scipy.optimize.minimize'] = mini
-            T, P = D.sym('T'), D.sym('P')
-            res = I.call_method(eq, 'get_net_comp', [], {'T': T, 'P': P})
-            if not success:
-                signalled = isinstance(res, Raised) or len(I.warnings) > 0
-                run.check(signalled, 'PATH.solver-status', 'Equilibrium.get_net_comp', 'success=False',
-                          'the solver reports failure (success=False) but the composition is returned without a '
-                          'warning or an exception: the success flag of the optimisation result is never consulted',
-                          owner.module, fn, sample='minimize(...).success == False -> warning or exception')
-                continue
-            if isinstance(res, Raised) or not isinstance(res, Obj):
-                run.fail('REF.result', 'Equilibrium.get_net_comp', 'result', '[%s] unexpected result %s'
-                         % (label, show(res)), owner.module, fn)
-                continue
-            run.check(len(I.warnings) == 0, 'PATH.solver-status', 'Equilibrium.get_net_comp', 'success=True',
-                      'a warning is raised although the solver succeeded', owner.module, fn)
-            x = cap['sol'].attrs['x']
-            tot = x.items[0]
-            for xi in x.items[1:]:
-                tot = tot + xi
-            mf = res.attrs.get('mole_frac')
-            ok = isinstance(mf, ListV) and len(mf) == ns and all(same(a, b / tot) for a, b in zip(mf.items, x.items))
-            run.check(ok, 'REF.mole-fractions', 'Equilibrium.get_net_comp', label,
-                      'mole fractions are %s, expected x/sum(x) of the solver amounts' % show(mf, 160), owner.module, fn)
-            run.check(res.attrs.get('moles') is x and same(res.attrs.get('species'), ListV(list(names))),
-                      'REF.result', 'Equilibrium.get_net_comp', label + ' amounts',
-                      'returned amounts/species are not the solver\'s x in the species order', owner.module, fn)
-            # objective and its Jacobian
-            xs = ListV([D.sym('x%d' % i) for i in range(ns)])
-            xs.is_array = True
-            xs.dtype = 'float'              # the solver hands float64 vectors to the callbacks
-            args = cap.get('args')
-            fun, jac = cap.get('fun'), cap.get('jac')
-            if not (isinstance(fun, FuncRef) and isinstance(jac, FuncRef) and isinstance(args, ListV)):
-                run.fail('DATAFLOW.solver-args', 'Equilibrium.get_net_comp', label, 'objective/jac/args not handed to '
-                         'the solver as bound methods and a tuple', owner.module, fn)
-                continue
-            fr_ = None
-            from ..xlate import Frame
-            fr_ = Frame(I, owner.module, {}, owner, eq)
-            val = fr_.apply(fun, [xs] + list(args.items), {}, None)
-            grad = fr_.apply(jac, [xs] + list(args.items), {}, None)
-            g = [sp[nm].opaque_methods['get_GoRT'](I, sp[nm], [], {'T': T}) for nm in names]
-            nT = xs.items[0]
-            for xi in xs.items[1:]:
-                nT = nT + xi
-            p = args.items[1]
-            want = C(0)
-            for xi, gi in zip(xs.items, g):
-                want = want + xi * (gi + D.ln(xi * p / nT))
-            o1, f1 = (fun.owner or owner), fun.fn      # whatever the solver was handed
-            run.check(isinstance(val, Rat) and val.eq(want), 'REF.objective', 'Equilibrium.' + f1.name, label,
-                      'objective is %s, expected sum x_i (g_i + ln(x_i p / n)) with g_i = G_i/RT of species i at T'
-                      % show(val, 200), o1.module, f1, sample='[%s] objective == sum x_i(g_i + ln(x_i p/n))' % label)
-            o2, f2 = (jac.owner or owner), jac.fn
-            okj = isinstance(val, Rat) and isinstance(grad, ListV) and len(grad) == ns and \
-                all(isinstance(gr, Rat) and gr.eq(D.d(val, 'x%d' % i)) for i, gr in enumerate(grad.items))
-            run.check(okj, 'DERIV.objective-jac', 'Equilibrium.' + f2.name, label,
-                      'the Jacobian handed to the solver is not the gradient of the objective: %s' % show(grad, 200),
-                      o2.module, f2, sample='[%s] jac_i == d objective / d x_i' % label)
-            # pressure handed over: P in atm converted to bar
-            run.check(isinstance(p, Rat) and D.d(p, 'P').is_const() and not D.d(p, 'P').iszero(),
-                      'DATAFLOW.solver-args', 'Equilibrium.get_net_comp', label + ' pressure',
-                      'the pressure handed to the objective is not proportional to P', owner.module, fn)
-            # constraints
-            con = cap.get('constraints')
-            cons = con.items if isinstance(con, ListV) else [con]
-            okc = False
-            for cd in cons:
-                if isinstance(cd, DictV) and cd.d.get('type') == 'eq' and isinstance(cd.d.get('fun'), FuncRef):
-                    cv = fr_.apply(cd.d['fun'], [xs], {}, None)
-                    els = []
-                    for nm in names:
-                        els.extend(e for e in comps[nm] if e not in els)
-                    ne = len(els)
-                    # one balance per element of the network, in whatever order the elements are kept
-                    wantc = [sum((xs.items[i] * comps[nm].get(e, 0) - D.sym('feed_' + nm) * comps[nm].get(e, 0)
-                                  for i, nm in enumerate(names)), C(0)) for e in els]
-                    okc = isinstance(cv, ListV) and len(cv) == ne and all(isinstance(a, Rat) for a in cv.items)
-                    left = list(wantc)
-                    for a in (cv.items if okc else ()):
-                        hit = [w for w in left if a.eq(w)]
-                        if hit:
-                            left.remove(hit[0])
-                    okc = okc and not left
-                    o3, f3 = (cd.d['fun'].owner or owner), cd.d['fun'].fn
-                    run.check(okc, 'REF.constraint', 'Equilibrium.' + f3.name, label,
-                              'the equality constraint is %s, expected for every element of the network (atoms in x) - (atoms in '
-                              'the feed)' % show(cv, 160),
-                              o3.module, f3)
-                    jv = fr_.apply(cd.d['jac'], [xs], {}, None) if isinstance(cd.d.get('jac'), FuncRef) else None
-                    okjj = isinstance(cv, ListV) and isinstance(jv, ListV) and len(jv) == len(cv) and all(
-                        isinstance(jv.items[j], ListV) and len(jv.items[j]) == ns and
-                        all(same(jv.items[j].items[i], D.d(cv.items[j], 'x%d' % i)) for i in range(ns))
-                        for j in range(len(cv)))
-                    o4, f4 = ((cd.d['jac'].owner or owner), cd.d['jac'].fn) if isinstance(cd.d.get('jac'), FuncRef) \
-                        else (owner, fn)
-                    run.check(okjj, 'DERIV.constraint-jac', 'Equilibrium.' + f4.name, label,
-                              'the constraint Jacobian is not the derivative of the constraint (M transposed): %s'
-                              % show(jv, 160), o4.module, f4)
-            run.check(okc, 'DATAFLOW.solver-args', 'Equilibrium.get_net_comp', label + ' constraint',
-                      'no element-conservation equality constraint is handed to the solver', owner.module, fn)
-            # bounds
-            bnds = cap.get('bounds')
-            okb = isinstance(bnds, ListV) and len(bnds) == ns and all(
-                isinstance(b_, ListV) and isinstance(b_.items[0], Rat) and b_.items[0].is_const()
-                and b_.items[0].const_value() > 0 for b_ in bnds.items)
-            run.check(okb, 'REF.bounds', 'Equilibrium.get_net_comp', label + ' bounds',
-                      'amounts are not bounded below by a positive constant for every species: %s' % show(bnds, 120),
-                      owner.module, fn)
-            # x0 has one entry per species
-            x0 = cap.get('x0')
-            run.check(isinstance(x0, ListV) and len(x0) == ns, 'DATAFLOW.solver-args', 'Equilibrium.get_net_comp',
-                      label + ' x0', 'initial guess does not have one entry per species', owner.module, fn)
-            # the same object asked again at other conditions: the problem handed over is that of the new conditions
-            T2, P2 = D.sym('T2'), D.sym('P2')
-            cap.clear()
-            res2 = I.call_method(eq, 'get_net_comp', [], {'T': T2, 'P': P2})
-            fun2, args2 = cap.get('fun'), cap.get('args')
-            ok2 = isinstance(res2, Obj) and isinstance(fun2, FuncRef) and isinstance(args2, ListV) and len(args2) > 1
-            val2 = None
-            if ok2:
-                val2 = fr_.apply(fun2, [xs] + list(args2.items), {}, None)
-                g2 = [sp[nm].opaque_methods['get_GoRT'](I, sp[nm], [], {'T': T2}) for nm in names]
-                p2 = args2.items[1]
-                want2 = C(0)
-                for xi, gi in zip(xs.items, g2):
-                    want2 = want2 + xi * (gi + D.ln(xi * p2 / nT))
-                ok2 = isinstance(val2, Rat) and val2.eq(want2) and isinstance(p2, Rat) and \
-                    isinstance(p, Rat) and same(p2, p / P * P2)
-            run.check(ok2, 'REF.objective', 'Equilibrium.get_net_comp', label + ' second call at other conditions',
-                      'asked again at (T2, P2) the objective handed to the solver is %s, expected the sum with the '
-                      'species\' G/RT at T2 and the pressure P2' % show(val2, 200), owner.module, fn)
+    thorough = run.tier == 'thorough'
+    combos = list(itertools.product(NETWORKS, MODEL_FORMS))
+    seen = {}
+    nfail = 0
+    for ic, ((nlabel, net), form) in enumerate(combos):
+        label = '%s, %s' % (nlabel, form)
+        # quick: every exit mode on one of the problems (each problem has at least one); thorough: all on all
+        # (the later calls and the second object: with every third mode)
+        mine = [(k, m) for k, m in enumerate(FAILURE_MODES) if thorough or k % len(combos) == ic]
+        for k, mode in mine:
+            failure_instance(run, repo, net, form, label, owner, fn, mode, seen, more=thorough or k % 3 == 0)
+            nfail += 1
+        # quick: the calls after the second and the second object for one form of the model per network (every form
+        # on some network), callbacks applied in full on the first call only
+        extras = thorough or (ic // len(MODEL_FORMS)) % len(MODEL_FORMS) == ic % len(MODEL_FORMS)
+        success_instance(run, repo, net, form, label, owner, fn, FAILURE_MODES[(ic + 5) % len(FAILURE_MODES)],
+                         thorough, extras)
+    run.floor('solver failure instances', nfail, len(FAILURE_MODES))
     constructor(run, repo)
 
 
@@ -345,5 +582,66 @@ MUTANTS = [
                 "        for x in self.model:\n          if x in self.species:\n            self.gibbs.append(self.model[x].get_GoRT(T=T))")]},
     {'name': 'feed taken in the order of the model', 'expect': ('REF.constructor', '__init__'),
      'edits': [(E_, "        feed = np.array(list(network.values()))", "        feed = np.array([network[k_] for k_ in self.model if k_ in network])")]},
+    # ---- white-box round 2: state between calls and between objects, the exit modes of the solver
+    {'name': 'non-convergence warned once per object', 'expect': ('PATH.solver-status', 'get_net_comp'),
+     'edits': [(E_, "        self.network = network\n", "        self.network = network\n        self._warned = False\n"),
+               (E_, "        if not sol.success:\n", "        if not sol.success and not self._warned:\n            self._warned = True\n")]},
+    {'name': 'non-convergence warned once per (T, P) in a table of the class', 'expect': ('PATH.solver-status', 'get_net_comp'),
+     'edits': [(E_, "    def __init__(self,\n                 model,", "    _told = {}\n\n    def __init__(self,\n                 model,"),
+               (E_, "        if not sol.success:\n",
+                "        try:\n            self._told[(T, P)]\n            told = True\n        except KeyError:\n"
+                "            told = False\n            self._told[(T, P)] = 1\n        if not sol.success and not told:\n")]},
+    {'name': 'a failure is remembered: every later call warns', 'expect': ('PATH.solver-status', 'get_net_comp'),
+     'edits': [(E_, "        if not sol.success:\n",
+                "        self._bad = getattr(self, '_bad', False) or not sol.success\n        if self._bad:\n")]},
+    {'name': 'status test on the iteration-limit code only', 'expect': ('PATH.solver-status', 'get_net_comp'),
+     'edits': [(E_, "        if not sol.success:\n", "        if sol.status == 9:\n")]},
+    {'name': 'status test on the number of iterations and the iteration-limit code', 'expect': ('PATH.solver-status', 'get_net_comp'),
+     'edits': [(E_, "        if not sol.success:\n", "        if sol.nit >= self.maxiter or sol.status == 9:\n")]},
+    {'name': 'result cache by (T, P) kept in the class', 'expect': ('EFFECT.shared-state', 'get_net_comp'),
+     'edits': [(E_, "    def __init__(self,\n                 model,", "    _solved = {}\n\n    def __init__(self,\n                 model,"),
+               (E_, "        self.T = T\n        # Model initialization parameters\n",
+                "        self.T = T\n        try:\n            return self._solved[(T, P)]\n        except KeyError:\n            pass\n"),
+               (E_, "        return res(self.species, sol.x, sol.x/np.sum(sol.x), self.P, self.T)",
+                "        self._solved[(T, P)] = res(self.species, sol.x, sol.x/np.sum(sol.x), self.P, self.T)\n"
+                "        return self._solved[(T, P)]")]},
+    {'name': 'amounts of the first call handed out again', 'expect': ('REF.result', 'get_net_comp'),
+     'edits': [(E_, "        return res(self.species, sol.x, sol.x/np.sum(sol.x), self.P, self.T)",
+                "        self._x = getattr(self, '_x', sol.x)\n"
+                "        return res(self.species, self._x, sol.x/np.sum(sol.x), self.P, self.T)")]},
 ]
-EQUIV = []
+_PAIR = (
+    "    def _objective_and_jac(self, x, *args):\n        mu = np.zeros_like(x)\n        s = 0.0\n        nT = sum(x)\n"
+    "        g = np.array(args[0])\n        p = args[1]\n        for i in range(len(x)):\n"
+    "            mu[i] = g[i] + np.log(x[i]*p/nT)\n            s += x[i]*mu[i]\n        return s, mu\n\n")
+EQUIV = [
+    # white-box round 2, part B, and the harmless twins of the mutants above
+    {'name': 'amounts handed out as a copy of the solver\'s array',
+     'edits': [(E_, "        return res(self.species, sol.x, sol.x/np.sum(sol.x), self.P, self.T)",
+                "        moles = np.array(sol.x)\n        return res(self.species, moles, moles/np.sum(moles), self.P, self.T)")]},
+    {'name': 'objective and gradient from one function, jac=True',
+     'edits': [(E_, "    # Elemental Balance Equality Constraint. The returned value\n",
+                _PAIR + "    # Elemental Balance Equality Constraint. The returned value\n"),
+               (E_, "        sol = minimize(self._objective, self.guess,", "        sol = minimize(self._objective_and_jac, self.guess,"),
+               (E_, "                       jac=self._objective_jac,", "                       jac=True,")]},
+    {'name': 'the optimisation result read as a dictionary',
+     'edits': [(E_, "        if not sol.success:\n", "        if not sol['success']:\n"),
+               (E_, "'composition.'.format(sol.message))", "'composition.'.format(sol['message']))"),
+               (E_, "        return res(self.species, sol.x, sol.x/np.sum(sol.x), self.P, self.T)",
+                "        moles = sol['x']\n        return res(self.species, moles, moles/np.sum(moles), self.P, self.T)")]},
+    {'name': 'Gibbs energies and pressure reach the callbacks through closures instead of args',
+     'edits': [(E_, "        sol = minimize(self._objective, self.guess,\n                       args=(self.gibbs, self.P*1.01325),\n"
+                "                       jac=self._objective_jac,\n",
+                "        gibbs, p_bar = self.gibbs, self.P*1.01325\n"
+                "        sol = minimize(lambda x: self._objective(x, gibbs, p_bar), self.guess,\n"
+                "                       jac=lambda x: self._objective_jac(x, gibbs, p_bar),\n")]},
+    {'name': 'result cache by (T, P) kept in the object',
+     'edits': [(E_, "        self.network = network\n", "        self.network = network\n        self._solved = {}\n"),
+               (E_, "        self.T = T\n        # Model initialization parameters\n",
+                "        self.T = T\n        try:\n            return self._solved[(T, P)]\n        except KeyError:\n            pass\n"),
+               (E_, "        return res(self.species, sol.x, sol.x/np.sum(sol.x), self.P, self.T)",
+                "        self._solved[(T, P)] = res(self.species, sol.x, sol.x/np.sum(sol.x), self.P, self.T)\n"
+                "        return self._solved[(T, P)]")]},
+    {'name': 'status test spelled sol.status != 0',
+     'edits': [(E_, "        if not sol.success:\n", "        if sol.status != 0:\n")]},
+]
